@@ -1,3 +1,5 @@
+//go:build g_heavy
+
 package worlds
 
 // World W-FILE: properties C01, C02, C07.
